@@ -39,3 +39,6 @@ Definition c14_abs := math_abs.
 Definition c14_to_string := math_to_string.
 Definition c14_to_string_base := math_to_string_base.
 Definition c14_in_range := math_in_range.
+
+Definition c14_monte (fx : bool) l (off len : Z) := data_monte_carlo fx (c14_blocks l) off len.
+Definition c14_monte_str (s : list N) := mc_counts s.
